@@ -16,7 +16,7 @@ import sys
 import time
 
 sys.path.insert(0, os.path.dirname(os.path.abspath(__file__)))
-from common import (Check, build, coq_eval, coq_str, coq_opt, impl_run, run, grep_forbidden,  # noqa: E402
+from common import (Check, build, coq_eval, coq_opt, impl_run, run, grep_forbidden,  # noqa: E402
                     BUILD, COQ)
 
 IMPORTS = "Lib.Str Lib.Bytes Lib.Percent Lib.Utf8 Lib.PercentStr Corr.KCodec"
@@ -47,9 +47,31 @@ def lat(b):
     return bytes(b).decode("latin-1")
 
 
+def pack(values, bits, per):
+    """list of ints -> Gallina `list int` literal (primitive integers): chunks of
+    `per` elements of `bits` bits, least significant first, marker bit on top
+    (unpacked by Corr/KCodec.v `unpack`)."""
+    out = []
+    for i in range(0, len(values), per):
+        n = 1
+        for x in reversed(values[i:i + per]):
+            n = (n << bits) | x
+        out.append(str(n))
+    return "[" + ";".join(out) + "]"
+
+
 def cb(s):
-    """latin-1 transport string -> Gallina list of byte values"""
-    return coq_str(s)
+    """bytes / ASCII text (latin-1 transport string or bytes) -> packed literal"""
+    return pack(list(s) if isinstance(s, (bytes, bytearray)) else [ord(c) for c in s], 8, 7)
+
+
+def cs(s):
+    """str or list of code points -> packed literal"""
+    return pack(s if isinstance(s, list) else [ord(c) for c in s], 21, 2)
+
+
+def cps(s):
+    return [ord(c) for c in s]
 
 
 # ----------------------------------------------------------------------------
@@ -175,9 +197,9 @@ def run_codec(chk, tier, count=True):
     qs_inputs = []
     pool = pairs + rnd_strs[:600] + decoded[:300] + singles[::37]
     for i, s in enumerate(pool):
-        qs_inputs.append([SAFE_STRS[i % len(SAFE_STRS)], s])
+        qs_inputs.append([cps(SAFE_STRS[i % len(SAFE_STRS)]), cps(s)])
         if i % 3 == 0:
-            qs_inputs.append(["/", s])
+            qs_inputs.append([cps("/"), cps(s)])
 
     q_inputs = []
     one = [b""] + [bytes([a]) for a in range(256)]
@@ -213,10 +235,10 @@ def run_codec(chk, tier, count=True):
         {"op": "codec", "fn": "decode", "inputs": [lat(b) for b in dec_only]},
         {"op": "codec", "fn": "quote_from_bytes", "inputs": q_inputs},
         {"op": "codec", "fn": "quote_bytes_via_quote", "inputs": via_quote},
-        {"op": "codec", "fn": "encode", "inputs": enc_inputs},
+        {"op": "codec", "fn": "encode", "inputs": [cps(x) for x in enc_inputs]},
         {"op": "codec", "fn": "quote_str", "inputs": qs_inputs},
         {"op": "codec", "fn": "unquote_ascii", "inputs": unq_ascii},
-        {"op": "codec", "fn": "unquote_any", "inputs": unq_any},
+        {"op": "codec", "fn": "unquote_any", "inputs": [cps(x) for x in unq_any]},
         {"op": "codec", "fn": "unquote_to_bytes", "inputs": unq_bytes},
         {"op": "codec", "fn": "oracle", "inputs": oracle_inputs},
     ]
@@ -229,29 +251,30 @@ def run_codec(chk, tier, count=True):
 
     groups = []   # (name, checker, case literals, inputs for reporting)
     ins = [lat(b) for b in short + rnd_bytes]
-    groups.append(("bytes", "chk_bytes",
-                   ["(%s, (%s, %s))" % (cb(x), coq_str(d), coq_str(q)) for x, (d, q) in zip(ins, r_bytes)], ins))
+    groups.append(("bytes", "pk_bytes",
+                   ["(%s, (%s, %s))" % (cb(x), cs(d), cb(q)) for x, (d, q) in zip(ins, r_bytes)], ins))
     ins = [lat(b) for b in dec_only]
-    groups.append(("decode", "chk_decode", ["(%s, %s)" % (cb(x), coq_str(d)) for x, d in zip(ins, r_dec)], ins))
-    groups.append(("quote_from_bytes", "chk_quote",
-                   ["((%s, %s), %s)" % (cb(sf), cb(x), coq_str(q)) for (sf, x), q in zip(q_inputs, r_q)] +
-                   ["(([47], %s), %s)" % (cb(x), coq_str(q)) for x, q in zip(via_quote, r_via)],
+    groups.append(("decode", "pk_decode", ["(%s, %s)" % (cb(x), cs(d)) for x, d in zip(ins, r_dec)], ins))
+    groups.append(("quote_from_bytes", "pk_quote",
+                   ["((%s, %s), %s)" % (cb(sf), cb(x), cb(q)) for (sf, x), q in zip(q_inputs, r_q)] +
+                   ["((%s, %s), %s)" % (cb("/"), cb(x), cb(q)) for x, q in zip(via_quote, r_via)],
                    q_inputs + [["/", x] for x in via_quote]))
-    groups.append(("encode", "chk_encode",
-                   ["(%s, %s)" % (coq_str(s), coq_opt(e, cb)) for s, e in zip(enc_inputs, r_enc)], enc_inputs))
-    groups.append(("quote_str", "chk_quote_str",
-                   ["((%s, %s), %s)" % (coq_str(sf), coq_str(s), coq_opt(q, coq_str))
-                    for (sf, s), q in zip(qs_inputs, r_qs)], qs_inputs))
-    groups.append(("unquote_ascii", "chk_unquote_ascii",
-                   ["(%s, (%s, %s))" % (coq_str(s), cb(ub), coq_str(us)) for s, (ub, us) in zip(unq_ascii, r_ua)],
+    groups.append(("encode", "pk_encode",
+                   ["(%s, %s)" % (cs(s), coq_opt(e, cb)) for s, e in zip(enc_inputs, r_enc)], enc_inputs))
+    groups.append(("quote_str", "pk_quote_str",
+                   ["((%s, %s), %s)" % (cs(sf), cs(s), coq_opt(q, cb)) for (sf, s), q in zip(qs_inputs, r_qs)],
+                   [["".join(map(chr, a)), "".join(map(chr, b))] for a, b in qs_inputs]))
+    groups.append(("unquote_ascii", "pk_unquote_ascii",
+                   ["(%s, (%s, %s))" % (cb(s), cb(ub), cs(us)) for s, (ub, us) in zip(unq_ascii, r_ua)],
                    unq_ascii))
-    groups.append(("unquote_any", "chk_unquote_any",
-                   ["(%s, %s)" % (coq_str(s), coq_str(us)) for s, us in zip(unq_any, r_uany)], unq_any))
-    groups.append(("unquote_to_bytes", "chk_unquote_bytes",
+    groups.append(("unquote_any", "pk_unquote_any",
+                   ["(%s, %s)" % (cs(s), cs(us)) for s, us in zip(unq_any, r_uany)], unq_any))
+    groups.append(("unquote_to_bytes", "pk_unquote_bytes",
                    ["(%s, %s)" % (cb(x), cb(u)) for x, u in zip(unq_bytes, r_ub)], unq_bytes))
 
     for name, checker, cases, inputs in groups:
-        mism, err, nsh = coq_eval(chk.prop, "kcodec_" + name, IMPORTS, checker, cases, shard=SHARD)
+        mism, err, nsh = coq_eval(chk.prop, "kcodec_" + name, IMPORTS, checker, cases, shard=SHARD,
+                                   pre="Local Open Scope uint63_scope.")
         total_cases += len(cases)
         total_shards += nsh
         total_mism += len(mism)
